@@ -20,7 +20,7 @@ def provenance(prog, rep):
         c = rets[0].value
         g = c.generators[0]
         it = g.iter
-        if isinstance(it, ast.Call) and norm(it.func) == "_intersecting_eventpairs" and len(it.args) == 2 and isinstance(g.target, ast.Tuple) and len(g.target.elts) == 3 and not g.ifs:
+        if isinstance(it, ast.Call) and norm(it.func) == "_intersecting_eventpairs" and len(it.args) == 2 and ((isinstance(g.target, ast.Tuple) and len(g.target.elts) == 3) or isinstance(g.target, ast.Name)) and not g.ifs:
             a0, a1 = norm(it.args[0]), norm(it.args[1])
             # the two arguments derive from the two parameters, in order
             def derives(name, param):
@@ -29,7 +29,10 @@ def provenance(prog, rep):
                     return all(norm(d.value) in (f"sorted({param})", f"sorted({param}, key=lambda e: e.timestamp)", f"list({param})", f"{param}[:]") for d in defs)
                 return False
 
-            t0, t2 = norm(g.target.elts[0]), norm(g.target.elts[2])
+            if isinstance(g.target, ast.Tuple):
+                t0, t2 = norm(g.target.elts[0]), norm(g.target.elts[2])
+            else:
+                t0, t2 = f"{g.target.id}[0]", f"{g.target.id}[2]"
             elt = c.elt
             if derives(a0, fi.params[0]) and derives(a1, fi.params[1]):
                 if isinstance(elt, ast.Call) and norm(elt.func) == "_replace_event_period" and [norm(x) for x in elt.args] == [t0, t2]:
